@@ -9,6 +9,15 @@ sys.path.insert(0, VERIF)
 from harness.core import CHECKS  # noqa
 
 TABLE = {
+    "C15": dict(
+        category="exploration", design_ref="3/C15",
+        technique="Hypothesis-generated headers with exactly one rule violation (or none) per case, rule-based three-valued oracle (must reject / must accept / don't care); consumption-side tokens validly signed or encrypted by the independent reference over exactly that header",
+        text="~60 000 generated headers per quick run: each registered / algorithm-specific / caller-registered / unknown parameter with a value of every JSON type, in protected, unprotected "
+             "and per-recipient position, for JWS (compact, flattened, general, RFC 7797) and JWE (compact, flattened, general over dir, A128KW, ECDH-ES, PBES2, A128GCMKW), producing and "
+             "consuming, strict checking on and off; one violated rule per case isolates each check, ~20 000 valid headers (caller-registered parameter, strict off) must be accepted. "
+             "All cases of a shard run in one process so that registry state leaking between registries shows. Exploration over generated cases.",
+        note="DONT_CARE: bool for int, crit [] / crit naming standard parameters, non-URL strings for jku/x5u; a header that cannot be authentic (alg-specific member missing / mistyped) is probed by rewriting a valid token",
+    ),
     "C06": dict(
         category="exploration", design_ref="3/C06",
         technique="enumeration of the finite (algorithm x violated clause x operation x entry point x key hand-over) matrix with Hypothesis-generated key material, must-reject oracle with a suitable-key control per cell; reference-forged MAC-with-public-key tokens; warning oracle for PEM/SSH text imported as oct",
